@@ -3,6 +3,7 @@ package main
 // C09 — SafeWriter contract: each payload lands once, in order, on its own side.
 
 import (
+	"fmt"
 	"strings"
 	"sync"
 
@@ -48,6 +49,46 @@ func historyNontrivial(h []Op) bool {
 	return (safe && unsafe) || special
 }
 
+// flaggedDirective: a SafeFormat method reached through a directive with flags, width and precision.
+const flaggedDirective = "%+8.3v"
+
+func runOnSafeFormatFlagged(h []Op) (out string, pan interface{}) {
+	defer func() { pan = recover() }()
+	return string(redact.Sprintf(flaggedDirective, histFormatter{h})), nil
+}
+
+// modelHistoryNumericFlags: the reference model with the one deviation recorded as
+// a known finding: the printer's SafeInt/SafeUint/SafeFloat render the number under
+// the flags, width and precision of the directive through which SafeFormat was reached.
+func modelHistoryNumericFlags(h []Op) string {
+	var b strings.Builder
+	for _, o := range h {
+		switch o.M {
+		case "SafeInt":
+			// under %+v the '+' is the struct-field mode, not a sign flag: width and precision remain
+			b.WriteString(fmt.Sprintf("%8.3d", o.I))
+			continue
+		case "SafeUint":
+			b.WriteString(fmt.Sprintf("%8.3d", uint64(o.I)))
+			continue
+		case "SafeFloat":
+			b.WriteString(fmt.Sprintf("%8.3v", o.F))
+			continue
+		}
+		for _, p := range modelPieces(o) {
+			switch p.kind {
+			case 0:
+				b.WriteString(esc(p.text))
+			case 1:
+				b.WriteString(wrapUnsafe(p.text))
+			default:
+				b.WriteString(p.text)
+			}
+		}
+	}
+	return canon(b.String())
+}
+
 // c09check runs one history on every implementation and applies the oracles.
 func c09check(w *Worker, h []Op) {
 	valid := historyValid(h)
@@ -56,6 +97,22 @@ func c09check(w *Worker, h []Op) {
 		model = modelHistory(h)
 	}
 	cs := func() interface{} { return map[string]interface{}{"history": historyString(h), "ops": h} }
+	// The same script reached through a directive with flags (valid histories only).
+	if valid {
+		out, pan := runOnSafeFormatFlagged(h)
+		w.Eval(1)
+		if pan != nil {
+			w.Violate("C09 panic SafeFormat(flagged)", "Sprintf("+flaggedDirective+", script) panicked: "+sprint(pan)+" history="+historyString(h), cs())
+		} else if p := parse(out); !p.WellFormed || !p.LineSafe {
+			w.Violate("C09 ill-formed SafeFormat(flagged)", "Sprintf("+flaggedDirective+", script) output "+q(out)+" history="+historyString(h), cs())
+		} else if got := canonP(p); got != model {
+			if got == modelHistoryNumericFlags(h) {
+				w.Violate("C09 numeric safe emitters honour the directive's flags", "Sprintf("+flaggedDirective+", script): "+q(out)+" history="+historyString(h), cs())
+			} else {
+				w.Violate("C09 model SafeFormat(flagged)", "Sprintf("+flaggedDirective+", script) gives "+q(out)+" canonical "+q(got)+" want "+q(model)+" history="+historyString(h), cs())
+			}
+		}
+	}
 	for _, im := range c09impls {
 		out, pan := im.run(h)
 		w.Eval(1)
